@@ -289,6 +289,14 @@ def sweep(fx, R):
                     e0 = strip_casts(i['e'])
                     if e0.get('k') == 'Ref' and e0.get('rk') == 'param':
                         p_ = next((p for p in g.get('params', []) if p['id'] == e0.get('id')), None)
+                        tname = (p_['t'].get('s') or '').replace('const ', '').replace(' &', '').strip() if p_ is not None else ''
+                        trec = fx.records.get(tname) or fx.records.get('romea::core::' + tname)
+                        small_value = trec is not None and trec.get('fields') and len(trec['fields']) <= 16 and all((fl2.get('t') or {}).get('c') in ('int', 'fp', 'bool', 'enum') for fl2 in trec['fields'])
+                        if p_ is not None and p_['t'].get('ref') and p_['t'].get('const') and not small_value:
+                            # a non-owning view of a container / large object is a design choice (adaptors over point sets); only a small value
+                            # object (a handful of numbers that configure the computation) has no reason to be held by reference
+                            R.holds('H6', '%s:reference-member:%s' % (cls, fl_['name']), 'non-owning view of `%s` (%s), not a small configuration value' % (p_['name'], tname[:60]), fx.rel(g['loc']), 'E-STATE')
+                            continue
                         if p_ is not None and p_['t'].get('ref') and p_['t'].get('const'):
                             R.violated('H6', '%s:reference-member:%s' % (cls, fl_['name']), 'the member `%s` is a reference bound to the constructor parameter `%s` (%s): the object does not own that value. A '
                                        'caller that passes a temporary leaves it dangling at once, and a caller that re-uses or re-assigns its variable changes the behaviour of the object built from it - '
